@@ -23,6 +23,7 @@ EXPLANATION = (
     "test must pass a line start different from the position; (7) KIND: no container-kind misuse in str_util / util."
     ' Added after seed round 3: (8) within_double_byte tests exactly the byte ranges of the double-byte encodings, compared as integer intervals (`> 0x80` and `>= 0x81` are the same); (9) calc_trim_text searches absolute columns from start_offs and returns a start offset that comes from a column search on every left-trimming path.'
     " Round 4: only get_char_width consults the wcwidth package (C11.3); (10) RANGE - every ordinal decode_one can return is at most 0x10FFFF (bit-arithmetic upper bounds, tightened by the branch's own comparison); (11) scan-exit twins; (12) a distance bound on the continuation-byte scans leaves room for 4 bytes; (13) PAIRLEN in apply_target_encoding."
+    " Round-4 triage: (14) every position move_next_char returns is start + 1, clamped with min(.., end_offs), or the index of a scan bounded by end_offs."
 )
 NOT_DECIDED = "Additivity of widths, offset/column agreement, str-vs-bytes agreement for every code point, the padding flags of trimming, DEC special character mapping values - exhaustive value questions over code points."
 ASSUMPTIONS = ["Canonical codec spellings are taken from the analysing interpreter's codec registry (codecs.lookup(name).name)."]
@@ -510,6 +511,47 @@ def rule_utf8_scan_bound(ctx: Ctx, clause: str = "C11.12") -> RuleResult:
     return rr
 
 
+def rule_step_in_range(ctx: Ctx, clause: str = "C11.14") -> RuleResult:
+    """move_next_char(text, start, end) promises a position in (start, end].  After the `start >= end` guard a step of
+    one is always inside; a larger step is inside only if it is clamped with `min(.., end)` or produced by a scan loop
+    whose condition keeps the index below `end` (the UTF-8 branch).  A double-byte lead that is the last byte of the
+    range must not carry the position past the end."""
+    from ..rules.defuse import DefUse
+    from ..rules.util import linear
+
+    p = ctx.p
+    rr = RuleResult("BOUND", clause, "every position move_next_char returns is start + 1, clamped with min(.., end_offs), or the index of a scan loop bounded by end_offs", floor=3)
+    fi = p.func(f"{SU}.move_next_char")
+    start, end = fi.params[1], fi.params[2]
+    du = DefUse(fi)
+    for r in [n for n in fi.own_nodes() if isinstance(n, ast.Return) and n.value is not None]:
+        v = r.value
+        L = linear(v)
+        ok, why = False, ""
+        if L == {start: 1, "": 1}:
+            ok, why = True, "single step"
+        elif isinstance(v, ast.Call) and isinstance(v.func, ast.Name) and v.func.id == "min" and any(isinstance(a, ast.Name) and a.id == end for a in v.args):
+            ok, why = True, "clamped with min(.., end)"
+        elif isinstance(v, ast.Name):
+            def bounded_by_end(w, b):
+                heads = du.cfg.stmt_nodes(w)
+                e = du.expand(b, heads[0]) if heads else b
+                if isinstance(e, ast.Name) and e.id == end:
+                    return True
+                return isinstance(e, ast.Call) and isinstance(e.func, ast.Name) and e.func.id == "min" and any(isinstance(a, ast.Name) and a.id == end for a in e.args)
+
+            loops = [w for w in fi.own_nodes() if isinstance(w, ast.While) and any(isinstance(c, ast.Compare) and isinstance(c.left, ast.Name) and c.left.id == v.id and isinstance(c.ops[0], ast.Lt) and bounded_by_end(w, c.comparators[0]) for c in ast.walk(w.test))]
+            stores = [a for a in fi.own_nodes() if isinstance(a, (ast.Assign, ast.AugAssign)) and any(isinstance(t, ast.Name) and t.id == v.id for t in (a.targets if isinstance(a, ast.Assign) else [a.target]))]
+            inside = {id(x) for w in loops for x in ast.walk(w)}
+            seeds = [a for a in stores if id(a) not in inside]
+            if loops and all(isinstance(a, ast.Assign) and linear(a.value) == {start: 1, "": 1} for a in seeds) and all(isinstance(a, ast.AugAssign) and isinstance(a.value, ast.Constant) and a.value.value == 1 for a in stores if id(a) in inside):
+                ok, why = True, "scan index bounded by end"
+        rr.inst(norm(r, 50), True, {"return": norm(r, 60), "why_in_range": why})
+        if not ok:
+            rr.add(finding("BOUND", fi, r, f"`{norm(r, 60)}` can return a position beyond `{end}`: a step of more than one byte is neither clamped with min(.., {end}) nor the index of a scan bounded by {end} - a double-byte lead that is the last byte of the range (a cut-off character) moves the position past the end of the text", construct=f"unclamped step: {norm(r, 60)}"))
+    return rr
+
+
 def run(ctx: Ctx):
     p = ctx.p
     loops = [f.qualname for f in p.modules[SU].functions if any(isinstance(n, ast.While) for n in f.own_nodes())]
@@ -527,12 +569,15 @@ def run(ctx: Ctx):
         rule_scan_exit_twins(ctx),
         rule_utf8_scan_bound(ctx),
         pairlen.run_pairlen(p, "C11.13", ["urwid.util.apply_target_encoding"], floor=4),
+        rule_step_in_range(ctx),
     ]
 
 
 _S = "urwid/str_util.py"
 _U = "urwid/util.py"
 MUTANTS = [
+    Mut("next-char-double-byte-step-unclamped", _S, "move_next_char", "return min(start_offs + 2, end_offs)", "return start_offs + 2", "BOUND|str_util.move_next_char"),
+    Mut("twin-next-char-clamp-arg-order", _S, "move_next_char", "return min(start_offs + 2, end_offs)", "return min(end_offs, start_offs + 2)", twin=True),
     Mut("charset-run-of-unstripped-segment", _U, "apply_target_encoding", "cout.append((None, len(sis0)))", "cout.append((None, len(sis[0])))", "PAIRLEN|util.apply_target_encoding"),
     Mut("calc-width-by-wcswidth", _S, "calc_width", "    if isinstance(text, str):\n        return sum(", "    if isinstance(text, str):\n        if (width := wcwidth.wcswidth(text[start_offs:end_offs])) >= 0:\n            return width\n        return sum(", "SIB|str_util.calc_width"),
     Mut("next-char-scan-three-bytes", _S, "move_next_char", "        while o < end_offs and text[o] & 0xC0 == 0x80:", "        limit = min(end_offs, start_offs + 3)\n        while o < limit and text[o] & 0xC0 == 0x80:", "TAB|str_util.move_next_char"),
